@@ -82,6 +82,7 @@ class C28(SchedProp):
         'CylcModel.C28.live_parent_counterexample',
         'CylcModel.C28.live_parent_live',
         'CylcModel.C28.groups_cover',
+        'CylcModel.C28.unpooled_object_counterexample',
     ]
     statement_note = ''      # set below (kept next to the theorem list)
     technique = ('line-by-line Lean port of the group-trigger code path on top of the scheduler model (Sched3Trig: flows, '
@@ -116,22 +117,38 @@ class C28(SchedProp):
 
     # -- K-T: behaviour flag probed from the live code ---------------------------------------------------
     def translate(self):
-        probe = {'id': 'c28-probe', 'flow': _flow('            a => b'), 'seed': 0, 'opts': {}, 'policy': {},
-                 'ops': [_L] + _job('1/a', msgs=('started',)) + [_L, _trig(['1/a', '1/b'])], 'kind': 'cmdtrig'}
-        raw = run_workers([probe], 1)[0]
-        if 'error' in raw:
-            raise Infra(f'C28 probe run failed: {raw["error"][-400:]}')
-        last = raw['obs'][-1]
+        probes = [
+            # 1/a running with "started" complete: is 1/b's prerequisite on 1/a:succeeded satisfied by the trigger?
+            {'id': 'c28-probe1', 'flow': _flow('            a => b'), 'seed': 0, 'opts': {}, 'policy': {},
+             'ops': [_L] + _job('1/a', msgs=('started',)) + [_L, _trig(['1/a', '1/b'])], 'kind': 'cmdtrig'},
+            # 1/e pooled in flow 1 (absolute trigger on the running 1/d), triggered in a new flow: is an object
+            # that is not the pooled proxy put on the trigger-now list?
+            {'id': 'c28-probe2', 'flow': _flow('            d\n            d[^]:x => e', fcp=2).replace(
+                '            default run length = PT0S\n',
+                '            default run length = PT0S\n    [[d]]\n        [[[outputs]]]\n            x = xx\n'),
+             'seed': 0, 'opts': {}, 'policy': {},
+             'ops': [_L] + _job('1/d', msgs=('started',)) + [_L, _trig(['1/d', '1/e'], flow=['new'])],
+             'kind': 'cmdtrig'},
+        ]
+        raws = run_workers(probes, 2)
+        for raw in raws:
+            if 'error' in raw:
+                raise Infra(f'C28 probe run failed: {raw["error"][-400:]}')
+        last = raws[0]['obs'][-1]
         b = [t for t in last['xt']['pool'] if (t['p'], t['n']) == (1, 'b')]
-        # 1/a is running with "started" complete: is 1/b's prerequisite on 1/a:succeeded satisfied by the trigger?
         any_output = bool(b) and any(a[3] != 0 for pre in b[0]['pre'] for a in pre if a[:3] == [1, 'a', 'succeeded'])
-        self.any_output = any_output
+        unpooled = [1, 'e'] in raws[1]['obs'][-1]['xt']['now']
+        self.flags = {'anyOutput': any_output, 'triggerUnpooled': unpooled}
+        tf = {True: 'true', False: 'false'}
         return {'TrigFlags.lean': (
             '/- GENERATED by harness/props/c28.py translate() from the live source. Do not edit. -/\n'
             'namespace CylcModel.TrigFlags\n'
             '/-- `cylc trigger` satisfies every prerequisite on a live group-start member that has completed *some*\n'
             'output (true: code as found) or only the prerequisites on its completed outputs (false: repaired) -/\n'
-            f'def anyOutput : Bool := {"true" if any_output else "false"}\n'
+            f'def anyOutput : Bool := {tf[any_output]}\n'
+            '/-- `cylc trigger` triggers the object `_set_prereqs_tdef` hands back even when it is not the pooled proxy of\n'
+            'its instance (true: code as found; false: repaired) -/\n'
+            f'def triggerUnpooled : Bool := {tf[unpooled]}\n'
             'end CylcModel.TrigFlags\n')}
 
     def corpus(self):
@@ -143,6 +160,19 @@ class C28(SchedProp):
         if 'crash' not in d:
             d['obs_db'] = bool((inp.get('policy') or {}).get('obs_db'))
         return d
+
+    def impl_batch(self, inputs):
+        # on an overloaded machine the network server thread of a starting Scheduler can miss its barrier
+        # time-out (an infrastructure hiccup, not a behaviour): such cases are run again, a few at a time
+        res = run_workers(inputs, self.workers)
+        for attempt in range(3):
+            again = [k for k, r in enumerate(res) if 'error' in r and 'BrokenBarrierError' in r['error']]
+            if not again:
+                break
+            redo = run_workers([inputs[k] for k in again], 2 if attempt else 4)
+            for k, r in zip(again, redo):
+                res[k] = r
+        return res
 
     def skip_case(self, inp, raw):
         if 'error' in raw and 'BrokenBarrierError' in raw['error']:
@@ -212,12 +242,17 @@ C28.statement_note = (
     '(live_parent_repaired); for the behaviour as found the full statement live_parent_full is false '
     '(live_parent_counterexample, concrete witness), and live_parent_live ties the truth of the full statement to the flag '
     'TrigFlags.anyOutput that translate() probes from the live code; (6) every id of a command lands in a connected group '
-    'and groups contain ids of the command only (groups_cover). NOT proved (covered by the trace correspondence and the '
+    'and groups contain ids of the command only (groups_cover); (7) the second defect found: when the command meets a '
+    'member that is pooled in other flows only, the behaviour as found submits one instance twice under the same submit '
+    'number -- once from an object that is not in the pool -- and the repaired behaviour once '
+    '(unpooled_object_counterexample, a concrete run for both values of the probed flag TrigFlags.triggerUnpooled; '
+    'submit_once_per_loop therefore carries the hypothesis "no unpooled object pending"). NOT proved (covered by the trace correspondence and the '
     'judge only): the end-to-end statements "each member runs exactly once more along every continuation" (liveness over the '
     'whole scheduler incl. removal, kill and respawn), the ordering of later submissions after in-group outputs, '
     'whole-command versions of (3)/(4) through _remove_matched_tasks, and (3) for a live member that is in no flow or '
-    'flow-waiting (merge_flows then also spawns on its completed outputs). Four deviations of cylc-flow from the property '
-    'text are recorded as findings: live-parent-any-output (repair proposed: findings/C28-fix-1.diff), sequential-task, '
-    'abs-trigger-in-group, other-flow-member.')
+    'flow-waiting (merge_flows then also spawns on its completed outputs). Five deviations of cylc-flow from the property '
+    'text are recorded as findings: live-parent-any-output (repair proposed: findings/C28-fix-1.diff), '
+    'unpooled-object-triggered (repair proposed: findings/C28-fix-2.diff), sequential-task, abs-trigger-in-group, '
+    'other-flow-member.')
 
 PROP = C28()
